@@ -354,13 +354,28 @@ def whole_queries(ctx):
                 continue
             qs.append((lam(v, b), lam(v, bx), g))
         answers = ctx.driver.call("op", [tc.model_requests(w, "Select", item_sx, q) for q, _, _ in qs])
-        for (q, qx, g), ans in zip(qs, answers):
+        # the queries that call the registered function, again as Python callables written in a generated module in which
+        # that function has a real body: a registered function is a backend function, the call stays by name and is
+        # normalised like any other (F54)
+        body = {"fn": "%s * 2.0" % info["fn"][0][0]}
+        cqs, seen = [], set()
+        for q, qx, g in qs:
+            if tc.callable_form_ok(q, body) and ast.dump(q) not in seen and len(cqs) < ctx.budget(10, 40):
+                seen.add(ast.dump(q))
+                cqs.append((q, qx, g))
+        todo = [(q, qx, g, ans, "ast") for (q, qx, g), ans in zip(qs, answers)]
+        if cqs:
+            crun = tc.callable_runner(ctx.rng, model, desc, [("Select", q) for q, _, _ in cqs], body)
+            amap = {ast.dump(q): ans for (q, _, _), ans in zip(qs, answers)}
+            todo += [(q, qx, g, amap[ast.dump(q)], "callable") for q, qx, g in cqs]
+        for q, qx, g, ans, form in todo:
             ctx.evaluations += 1
             ctx.corr_cases += 1
             ctx.distinct.add(ast.dump(q))
             ctx.count("depth_reached", str(g.maxdepth))
             ctx.count("typed_call_sites", str(min(g.sites, 8)))
-            impl = tc.run_impl(model, "Select", item, q)
+            ctx.count("form", form)
+            impl = tc.run_impl(model, "Select", item, q) if form == "ast" else crun(model, "Select", item, q)
             mod = tc.parse_model_answer(ans)
             ctx.count("whole_query", impl[0])
             ok, what = True, ""
@@ -374,10 +389,11 @@ def whole_queries(ctx):
                     ok, what = False, "emitted %s ; Signature.bind().apply_defaults() at every typed call site gives %s" % (
                         ast.unparse(bridge.from_sx(impl[1])), ast.unparse(qx))
             wit = {"kind": "query", "desc": desc, "query_dump": ast.dump(q), "expect_dump": ast.dump(qx),
-                   "must_refuse": g.must_refuse, "query": ast.unparse(q)}
+                   "must_refuse": g.must_refuse, "query": ast.unparse(q), "form": form, "body": body}
             if not ok:
-                ctx.fail("failing-input", "%s: %s" % (ast.unparse(q), what), dict(wit, oracle="bind"),
-                         key=core.digest({"p": ID, "d": desc, "q": ast.dump(q)}))
+                tag = "" if form == "ast" else "<python callable; registered function with the real body %s> " % body
+                ctx.fail("failing-input", "%s%s: %s" % (tag, ast.unparse(q), what), dict(wit, oracle="bind"),
+                         key=core.digest({"p": ID, "d": desc, "q": ast.dump(q), "form": form}))
             if not tc.same_outcome(impl, mod):
                 ctx.corr_disagreements += 1
                 if ok:
@@ -459,7 +475,10 @@ def replay(ctx, wit):
         q = eval(wit["query_dump"], dict(vars(ast)))
         qx = eval(wit["expect_dump"], dict(vars(ast)))
         item = model.ev("L0")
-        impl = tc.run_impl(model, "Select", item, q)
+        if wit.get("form", "ast") == "callable":
+            impl = tc.callable_runner(ctx.rng, model, wit["desc"], [("Select", q)], wit["body"])(model, "Select", item, q)
+        else:
+            impl = tc.run_impl(model, "Select", item, q)
         bad = (impl[0] != "refuse") if wit["must_refuse"] else (impl[0] != "ok" or impl[6] != ast.dump(qx))
         if bad:
             ctx.fail("failing-input", "still fails: %s -> %s" % (wit["query"], tc.show(impl)[:200]), wit,
